@@ -90,6 +90,7 @@ def build(read):
         sel, err_text, parts.located_spec(variants), parts.ast_text(b, read), parts.CLONE_EXPR,
         parts.value_items(b, read),
         MODEL,
+        parts.value_ctors(b, read, ["new_val_ref_with_no_source", "new_val_ref_with_source", "new_null", "new_bool", "new_int", "new_str", "new_list"]),
         "// ---- function under contract (verbatim body; contract text inserted at anchors)",
         f,
         parts.FOOTER,
